@@ -14,7 +14,9 @@ INFO = {
                    "afterwards, refused operations change no word, bit operations change exactly the requested bits of "
                    "unsigned registers and refuse signed/float/mismatched operands. Sanitise: arbitrary corrupted image "
                    "(no invariant assumed) -> SUCCESS, insane registers hold their default, sane ones keep their bits, "
-                   "touched marks cleared, invariant re-established. Arbitrary pre-state => covers operation sequences of "
+                   "touched marks cleared, invariant re-established. SANITISEANY: no assumption on defaults, constraint "
+                   "kinds or write access (runs that abort included): the table flag word is handed back unchanged "
+                   "(obligation of the induction used by C01/C03/C05: seed C01-F). Arbitrary pre-state => covers operation sequences of "
                    "any length on these tables.",
     "bounds": {"quick": {"NAREA": 2, "NREG": 3, "AWORDS": 6, "NMAX": 5, "geometries": geom.describe("quick")[:0] + ["see list in C02 evidence; subset g02 g03 g04 g07"]},
                "thorough": {"NAREA": 3, "NREG": 4, "AWORDS": 6, "NMAX": 8, "geometries": "all of C02's thorough list"}},
@@ -46,8 +48,10 @@ def instances(tier):
         gs = [g for g in gs if g[0] in ("g02", "g03", "g04", "g07")]
     out = []
     for g in gs:
-        for op in ("SET", "BITSET", "BITCLEAR", "BLOCKWRITE", "SANITISE"):
+        for op in ("SET", "BITSET", "BITCLEAR", "BLOCKWRITE", "SANITISE", "SANITISEANY"):
             if tier == "quick" and op == "BLOCKWRITE" and g[0] not in ("g02", "g04"):
+                continue
+            if tier == "quick" and op == "SANITISEANY" and g[0] not in ("g02", "g07"):
                 continue
             d = {"NAREA": na, "NREG": nr, "AWORDS": aw, "NMAX": (3 if (tier == "quick" and op == "BLOCKWRITE") else nm),
                  "OP_" + op: None}
